@@ -27,11 +27,19 @@ type caseC18 struct {
 	PassA    Hex    `json:"pass_a"`
 	PassB    Hex    `json:"pass_b"`
 	Wire     bool   `json:"wire"`
+	// Lone: "" both credentials as given | "user": the password is empty in both packets |
+	// "pass": the user name is empty in both. FlagOnly (wire only): the empty credential's
+	// flag is set and its zero-length field is on the wire.
+	Lone     string `json:"lone,omitempty"`
+	FlagOnly bool   `json:"flag_only,omitempty"`
 }
 
-func renderBoth(m model.Packet, user, pass []byte, wire bool) (dump, str string, err error) {
+func renderBoth(m model.Packet, user, pass []byte, wire bool, flagOnly ...bool) (dump, str string, err error) {
 	m.Username, m.HasUsername = string(user), len(user) > 0
 	m.Password, m.HasPassword = append([]byte(nil), pass...), len(pass) > 0
+	if wire && len(flagOnly) > 0 && flagOnly[0] {
+		m.HasUsername, m.HasPassword = true, true
+	}
 	m.Normalize()
 	var p mq.ControlPacket
 	if wire {
@@ -58,11 +66,17 @@ func checkC18(c caseC18) (sig, msg string) {
 	if len(c.UserA) != len(c.UserB) || len(c.PassA) != len(c.PassB) {
 		return "harness", "harness: credential lengths differ"
 	}
-	d1, s1, err := renderBoth(m.Clone(), c.UserA, c.PassA, c.Wire)
+	switch c.Lone {
+	case "user":
+		c.PassA, c.PassB = nil, nil
+	case "pass":
+		c.UserA, c.UserB = nil, nil
+	}
+	d1, s1, err := renderBoth(m.Clone(), c.UserA, c.PassA, c.Wire, c.FlagOnly)
 	if err != nil {
 		return "render", err.Error()
 	}
-	d2, s2, err := renderBoth(m.Clone(), c.UserB, c.PassB, c.Wire)
+	d2, s2, err := renderBoth(m.Clone(), c.UserB, c.PassB, c.Wire, c.FlagOnly)
 	if err != nil {
 		return "render", err.Error()
 	}
@@ -151,6 +165,8 @@ func TestC18(t *testing.T) {
 		copied := c1 || c2 || c3 || c4
 		wire := rapid.Bool().Draw(t, "wire")
 		c := caseC18{ModelGob: packModel(m), Model: m.String(), UserA: ua, UserB: ub, PassA: pa, PassB: pb, Wire: wire}
+		c.Lone = rapid.SampledFrom([]string{"", "", "", "user", "pass"}).Draw(t, "lone")
+		c.FlagOnly = wire && c.Lone != "" && rapid.Bool().Draw(t, "flagonly")
 		sig, msg := checkC18(c)
 		differ := !bytes.Equal(ua, ub) || !bytes.Equal(pa, pb)
 		class := "fresh-secrets"
@@ -162,7 +178,10 @@ func TestC18(t *testing.T) {
 		} else {
 			class += "/api"
 		}
-		r.Case(vf.FPs(c.ModelGob, string(ua), string(ub), string(pa), string(pb), fmt.Sprint(wire)), differ, class, func() interface{} {
+		if c.Lone != "" {
+			class += "/only-" + c.Lone
+		}
+		r.Case(vf.FPs(c.ModelGob, string(ua), string(ub), string(pa), string(pb), fmt.Sprint(wire, c.Lone, c.FlagOnly)), differ, class, func() interface{} {
 			return map[string]interface{}{"model": m.String(), "user": []string{string(ua), string(ub)}, "password": []string{string(pa), string(pb)}, "wire": wire}
 		})
 		if msg != "" {
